@@ -139,6 +139,12 @@ pub fn norm_loc(loc: &str) -> String {
     loc.to_string()
 }
 
+/// Properties whose statement makes a panic a violation ("proving succeeds", "never panics",
+/// "is rejected", "rejected with a format error", "list exactly", "without panicking").
+pub fn panic_is_violation(id: &str) -> bool {
+    matches!(id, "C01" | "C08" | "C10" | "C11" | "C12" | "C17")
+}
+
 pub fn is_harness_loc(loc: &str) -> bool {
     loc.contains("harness/vp/src") || loc.starts_with("vp/src")
 }
@@ -204,6 +210,10 @@ where
                             let mut o = CaseOut::new();
                             if is_harness_loc(&loc) {
                                 o.inconclusive = Some(format!("harness panic at {}: {}", loc, msg));
+                            } else if !panic_is_violation(ctx.id) {
+                                // this property says nothing about panics: the case cannot be judged
+                                // (panics are the subject of C01, C08, C10, C11, C12 and C17)
+                                o.inconclusive = Some(format!("library panicked at {} ({}); not this property's subject, see C08", loc, msg));
                             } else {
                                 o.violate(format!("panic@{}", loc), format!("panic in library code at {}: {}", loc, msg), json!({"location": loc, "message": msg}));
                             }
